@@ -13,3 +13,23 @@ package twig
 //@ func twig.(*AutoEscapeExtension).Init$1
 //@   requires cfg: e != nil && !(kindof(val) == 22 && ref(val) == 0)
 //@   requires escapers: forall k :: mdom("map[string]Escaper", e.Escapers, k) ==> mval("map[string]Escaper", e.Escapers, k) != nil
+// C12: the escape filter. A value already marked safe for the content type is returned as it is (no double
+// escaping); otherwise, when an escaper is registered for the type, the result is a SafeValue for exactly that
+// type holding the escaper's output on the string form of the value.
+//@   asserts safe: in(e.Escapers, ct) ==> (result == val && sv_safefor(val, ct)) || (istype(result, "stick.safeValue") && in(unbox(result, "stick.safeValue").safeFor, ct))
+//@   at "stick.NewSafeValue(escfn(stick.CoerceString(val)), ct)" registered: ok && escfn != nil
+
+// C12: content type of a template name: txt (not escaped), an extension with a registered escaper, html otherwise
+// (no extension, unknown extension, inline template)
+//@ func twig.(*autoEscapeVisitor).guessTypeFromName
+//@   ensures known: result == "txt" || result == "html" || (v.ext != nil && in(v.ext.Escapers, result))
+//@ func twig.(*autoEscapeVisitor).current
+//@   inline
+//@ func twig.(*autoEscapeVisitor).push
+//@   inline
+//@ func twig.(*autoEscapeVisitor).pop
+//@   inline
+// C12: entering a print statement wraps its expression in escape(<expr>, <content type on top of the stack>)
+//@ func twig.(*autoEscapeVisitor).Enter
+//@   ensures wrapped: istype(n, "*parse.PrintNode") ==> istype(unbox(n, "*parse.PrintNode").X, "*parse.FilterExpr") && unbox(unbox(n, "*parse.PrintNode").X, "*parse.FilterExpr").FuncExpr.Name == "escape" && len(unbox(unbox(n, "*parse.PrintNode").X, "*parse.FilterExpr").FuncExpr.Args) == 2 && unbox(unbox(n, "*parse.PrintNode").X, "*parse.FilterExpr").FuncExpr.Args[0] == old(unbox(n, "*parse.PrintNode").X) && istype(unbox(unbox(n, "*parse.PrintNode").X, "*parse.FilterExpr").FuncExpr.Args[1], "*parse.StringExpr") && unbox(unbox(unbox(n, "*parse.PrintNode").X, "*parse.FilterExpr").FuncExpr.Args[1], "*parse.StringExpr").Text == old(ite(len(v.stack) == 0, "", v.stack[len(v.stack) - 1]))
+//@ func twig.(*autoEscapeVisitor).Leave
